@@ -271,6 +271,28 @@ def search(ctx):
             if not (errb <= 1e-8):
                 ctx.violation("C17:compose-chained:%s" % par, "propagating the output of propagate (dims %r) by d2 != propagate(x, d1+d2) (rel %.3g)" % (tuple(p1.dims), errb),
                               dict(kind="compose-chained", dims=list(map(str, p1.dims)), **info))
+            # the optics given as ARGUMENTS (another medium / wavelength than the image has stored, or none stored at all): the result
+            # carries the optics it was computed with, so a further step needs no arguments and the group law holds for the chain
+            if coarse:
+                nm2, wl2 = 1.0, float(rng.uniform(0.4, 0.7))
+                for stored in ("other", "none"):
+                    src_ = im.copy()
+                    src_.attrs = dict(im.attrs)
+                    if stored == "none":
+                        src_.attrs.update(medium_index=None, illum_wavelen=None)
+                    q1 = impl_call(lambda: propagate(src_, d1, medium_index=nm2, illum_wavelen=wl2, cfsp=cfsp))
+                    ctx.tried("optics-as-arguments", (stored, nx, ny, i))
+                    if isinstance(q1, tuple) and len(q1) == 2 and q1[0] == "err":
+                        ctx.violation("C17:optics-arguments-raises:%s" % q1[1], "propagate with medium_index / illum_wavelen given as arguments raised %s" % q1[1], dict(kind="optics-args", stored=stored, **info))
+                        continue
+                    if not (q1.attrs.get("medium_index") == nm2 and q1.attrs.get("illum_wavelen") == wl2):
+                        ctx.violation("C17:optics-arguments:metadata", "propagate(x, d, medium_index=%r, illum_wavelen=%.4f) returns an image whose metadata says medium_index=%r, illum_wavelen=%r" % (
+                            nm2, wl2, q1.attrs.get("medium_index"), q1.attrs.get("illum_wavelen")), dict(kind="optics-args", stored=stored, **info))
+                        continue
+                    q12 = impl_call(lambda: propagate(q1, d2, cfsp=cfsp))
+                    qsum = propagate(src_, d1 + d2, medium_index=nm2, illum_wavelen=wl2, cfsp=cfsp) if d1 + d2 != 0 else src_
+                    if (isinstance(q12, tuple) and len(q12) == 2 and q12[0] == "err") or not (_rel(np.asarray(q12.transpose('x', 'y', ...).values).squeeze(), np.asarray(qsum.transpose('x', 'y', ...).values).squeeze()) <= 1e-8):
+                        ctx.violation("C17:optics-arguments:chain", "d1 with the optics as arguments, then d2 on the result without arguments != d1 + d2 with those optics", dict(kind="optics-args", stored=stored, **info))
             imt = im.transpose('x', 'y', ...)
             pt = propagate(imt, d1, cfsp=cfsp)
             errt = _rel(np.asarray(pt.transpose('x', 'y', ...).values).squeeze(), np.asarray(p1.transpose('x', 'y', ...).values).squeeze())
